@@ -266,7 +266,6 @@ func init() {
 	})
 }
 
-
 func runC13(c *Ctx, r *Report) {
 	le := repoLockEngine(c)
 	p := c.P
